@@ -125,7 +125,7 @@ def run(chk):
     #      the run is the same as on the float64 copy, and in particular every iteration still raises the likelihood
     for j in range(8 if chk.tier == "quick" else 64):
         sw = (bool(j % 2), True, bool((j // 2) % 2))
-        w, mu, var, s, X = gt.gen_training(r, C=2, N=14)
+        w, mu, var, s, X = gt.gen_training(r, C=2, N=14, scale="unit")
         C, D = mu.shape
         dt = [np.float32, np.int16, np.uint8, np.int32][j % 4]
         if dt is np.float32:
@@ -142,6 +142,10 @@ def run(chk):
         mb, _ = gt.build_machine(cfgq)
         na, La, _ = gt.run_fit(ma, Xq)
         nb, Lb, _ = gt.run_fit(mb, X64)
+        if not (gt.well_conditioned(ma, X64) and gt.well_conditioned(mb, X64)):
+            # a collapsed variance (quantised feature, component on one point) makes both runs rounding-dominated: not compared (DESIGN 9.5)
+            chk.count(1, key=("dtype", np.dtype(dt).name, "excluded: collapsed variance"))
+            continue
         chk.count(1, key=("dtype", np.dtype(dt).name, sw))
         ctxq = {"dtype": np.dtype(dt).name, "X": hexlist(X64), "shape": [C, D], "w": hexlist(w), "mu": hexlist(mu_q), "var": hexlist(var * kq * kq),
                 "switches(means,vars,weights)": list(sw), "reported": [La, Lb]}
